@@ -22,6 +22,64 @@ CHECKS = {
     },
 }
 
+CHECKS["C07"] = {
+    "title": "compression is lossless and canonical",
+    "rule": "Differential monitor of the crate's compress/decompress against a bit-at-a-time reference of Algorithms 17/18 "
+            "(values as i64), under a panic monitor, on release and overflow-checked builds. Legs: (1) exhaustive: every byte "
+            "string of length 0..3 decoded as 1, 2 and 3 coefficients; (2) compress: every value |v|<12160 into budgets 0..14, "
+            "boundary grids for n=2,3, production sizes (512/625, 1024/1239) with vectors engineered to need exactly 8L+d bits; "
+            "(3) cursor sweep at production sizes: a probe coefficient in last/second-last/third-last/middle role ending at every "
+            "bit position in [8L-26, 8L+10], unary lengths {0..2,7,93..96,127,128,255..257,300,390,511,512,640}, negative zero, "
+            "tails. Oracle: accepted => reference accepts the same integer vector and re-compression reproduces the string; "
+            "rejected => reference rejects or some |v_i| >= 12160. distinct_nontrivial = distinct accepted strings (leg 1) + "
+            "distinct (size, role, end position, unary length, sign/low, tail) cells (leg 3) + distinct compress rows (leg 2).",
+    "assumptions": ["reference codec in harness/src/refs/spec.rs (self-tested on every run)", "a decompressor may reject |v_i| >= 12160 (outside the property's domain)"],
+    "exhaustive": True,
+    "exhaustive_scope": "decompress: all strings of length <= 3 for n in {1,2,3}; compress: n=1, all 24319 values x budgets 0..14. Production sizes are structured samples.",
+    "legs": [{"name": "small-exhaustive", "profiles": BOTH}, {"name": "compress-sweep", "profiles": BOTH}, {"name": "cursor", "profiles": BOTH}],
+    "technique": "differential monitor against a bit-level reference codec (exhaustive on small sizes, structured cursor sweep at production sizes) + panic monitor, release and overflow-checked builds",
+    "level_text": "Complete enumeration of the small domain and a structured sweep of every guard of the decompressor at production sizes; "
+                  "each execution of the real code is compared with the reference and re-encoded.",
+    "level_note": "trusted: reference Algorithms 17/18 in the harness; hooks only re-export the crate-private functions",
+}
+
+CHECKS["C03"] = {
+    "title": "decoders and verify never panic",
+    "rule": "Panic monitor (catch_unwind + hook recording message and file:line) around the six from_bytes decoders and "
+            "around Signature::from_bytes + verify, on the release and the overflow-checked (opt3 + overflow-checks + "
+            "debug-assertions) builds. Workload: mutations of real and synthetic encodings (all 256 header bytes, truncation, "
+            "extension, other variant's lengths, bit flips, field edits incl. q-1/q/q+1/16383 and the reserved secret-key "
+            "pattern, all-zero/all-one bodies), every length 0..2400 x 8 headers, each string fed to all three decoders of the "
+            "variant; for verify: the cursor sweep of C07 at production sizes under four public keys (honest, zero, all q-1, "
+            "random), bit-flipped honest signatures, sparse random bodies. distinct_nontrivial = distinct (variant, decoder, "
+            "mutation family, outcome) cells + distinct (variant, public key, cursor cell) cells.",
+    "assumptions": ["a panic is the only failure mode of safe Rust here (no unsafe in the crate); allocation failure is not exercised"],
+    "legs": [{"name": "decoders", "profiles": BOTH}, {"name": "verify-hostile", "profiles": BOTH}],
+    "technique": "panic monitor (sanitizer for safe Rust) over structure-aware hostile inputs on release and overflow-checked builds; Miri leg in the thorough tier",
+    "level_text": "Executions of the real decoders and verifier on hostile inputs under a panic monitor in two build profiles; "
+                  "every guard of the decompressor is made the only thing between the input and an out-of-range index at least once.",
+    "level_note": "inputs outside the generated families are not covered; no functional oracle here (C02/C06/C07 have those)",
+}
+
+CHECKS["C02"] = {
+    "title": "verify accepts exactly what the specification accepts",
+    "rule": "Differential monitor: every (msg, sig, pk) accepted by both from_bytes goes through the crate's verify and through "
+            "an independent Algorithm 16 (own SHAKE-256/HashToPoint, bit-level Algorithm 18, schoolbook product, centred s1, "
+            "norm <= floor(beta^2)); PQClean's verifier is a second oracle wherever it can parse the input (an oracle conflict "
+            "is inconclusive). Classes: honest signatures over 12 message shapes; single-bit flips in salt / s / message / pk; "
+            "another message; the same s2 with one coefficient moved by +-q (same residues, norm far above the bound); the C07 "
+            "cursor sweep of malformed/edge encodings under honest, zero, all-(q-1), monomial and random public keys; crafted "
+            "triples whose norm is EXACTLY bound+d for d in {-3..3, +-1000, +-q}: s2 chosen NTT-invertible (dense, sparse, "
+            "large), s1 with coefficients at +-6144/+-6143 in one style and completed by a four-square decomposition, "
+            "h = (c - s1)/s2. distinct_nontrivial = distinct triples whose class is non-trivial (honest accepted, mutated, "
+            "aliased, malformed cell, exact-norm) counted by (class, variant, case id).",
+    "assumptions": ["reference Algorithm 16 in harness/src/refs (self-tested against SHAKE known answers and against PQClean at the exact boundary on every run)"],
+    "legs": [{"name": "differential"}, {"name": "boundary"}],
+    "technique": "differential monitor against an independent reference verifier (second oracle: PQClean), with crafted exact-norm triples at bound-1/bound/bound+1",
+    "level_text": "Sampled equivalence with the specification's verifier on structured adversarial triples, including exact-boundary norms that no honest signer produces.",
+    "level_note": "equivalence is sampled, not proved; triples outside the generated classes are not covered",
+}
+
 NOT_APPLICABLE = {}
 
 ENGINES = [
